@@ -15,6 +15,7 @@ func init() {
 		ID:    "C05",
 		Level: "fault_enumeration",
 		Rule: "base modules = every atom and generated module that both LLVM and the parser accept. Single-point naming faults are enumerated from the token stream of each base: every use of a global, local, type, comdat, metadata ID or attribute-group identifier (operands, callees, branch targets, phi predecessors, type uses, comdat uses, metadata uses in attachments/tuples/DI fields/named metadata, blockaddress operands, uselistorder targets) is redirected, one at a time, to a fresh undefined identifier of the same sigil, and every definition (global, function, type, comdat, metadata ID, local value, label) is duplicated, one at a time. About 100 hand-written faults add the shapes the enumeration cannot reach (a block address taken in a declaration, label/value name clashes, undefined names inside switch/indirectbr/invoke/callbr/bundles/casts/allocas/funclet terminators/use-list orders, duplicate comdats and metadata IDs, quoted-digit names next to IDs, references spelled with the empty quoted name, explicit %0 given twice, ...); every definition line is also removed, one at a time, after the intact base was parsed in the same process. A fault counts when LLVM rejects the faulted text; then asm.ParseString must return an error and no module, without panicking. " +
+			"Further faults: the verdict 'neither error nor module' is a violation of its own; references spelled with the empty quoted name in every position; explicit %0 given twice or out of position; undefined types inside attributes; explicit and misnumbered results of invoke, callbr and catchswitch. " +
 			"non-trivial = a faulted input LLVM rejects; distinct by (base, site)",
 		Gen:           genC05,
 		MinNontrivial: 1000,
@@ -468,6 +469,13 @@ func c05Handwritten(r *fw.Rec) {
 		"duplicate/comdat":                                    "$c = comdat any\n$c = comdat largest\n@g = global i32 0, comdat($c)\n",
 		"duplicate/metadata-id":                               "!0 = !{}\n!0 = !{!\"x\"}\n!nm = !{!0}\n",
 		"duplicate/ifunc-and-function":                        "@r = global i32 0\ndefine void ()* @res() {\n  ret void ()* null\n}\n@f = ifunc void (), void ()* ()* @res\ndefine void @f() {\n  ret void\n}\n",
+		// explicit numbers on the results of terminators
+		"duplicate/explicit-number-on-catchswitch": "declare i32 @pers(...)\ndefine void @f() personality i32 (...)* @pers {\nentry:\n  %0 = add i32 1, 2\n  %1 = add i32 %0, 2\n  invoke void @f() to label %ok unwind label %cs\nok:\n  ret void\ncs:\n  %1 = catchswitch within none [label %h] unwind to caller\nh:\n  %3 = catchpad within %2 []\n  catchret from %3 to label %ok\n}\n",
+		"duplicate/explicit-number-on-callbr":      "define i32 @f(i32 %x) {\nentry:\n  %0 = add i32 %x, 2\n  %1 = add i32 %0, 2\n  %1 = callbr i32 asm \"\", \"=r,r,X\"(i32 %x, i8* blockaddress(@f, %ind)) to label %ok [label %ind]\nok:\n  ret i32 %1\nind:\n  ret i32 0\n}\n",
+		"duplicate/explicit-number-on-invoke":      "declare i32 @pers(...)\ndeclare i32 @g()\ndefine i32 @f() personality i32 (...)* @pers {\nentry:\n  %0 = add i32 1, 2\n  %1 = add i32 %0, 2\n  %1 = invoke i32 @g() to label %ok unwind label %lp\nok:\n  ret i32 %1\nlp:\n  %l = landingpad i32 cleanup\n  ret i32 0\n}\n",
+		"duplicate/misnumbered-callbr-result":      "define i32 @f(i32 %x) {\nentry:\n  %9 = callbr i32 asm \"\", \"=r,r,X\"(i32 %x, i8* blockaddress(@f, %ind)) to label %ok [label %ind]\nok:\n  %1 = add i32 %9, 1\n  ret i32 %1\nind:\n  ret i32 0\n}\n",
+		"duplicate/misnumbered-catchswitch-result": "declare i32 @pers(...)\ndefine void @f() personality i32 (...)* @pers {\nentry:\n  invoke void @f() to label %ok unwind label %cs\nok:\n  ret void\ncs:\n  %7 = catchswitch within none [label %h] unwind to caller\nh:\n  %1 = catchpad within %0 []\n  catchret from %1 to label %ok\n}\n",
+		"duplicate/misnumbered-invoke-result":      "declare i32 @pers(...)\ndeclare i32 @g()\ndefine i32 @f() personality i32 (...)* @pers {\nentry:\n  %5 = invoke i32 @g() to label %ok unwind label %lp\nok:\n  ret i32 %5\nlp:\n  %l = landingpad i32 cleanup\n  ret i32 0\n}\n",
 		// named types inside attributes
 		"undefined/type-in-preallocated-function-attribute": "declare void @f() preallocated(%missing)\n",
 		"undefined/type-in-preallocated-attribute-group":    "declare void @f() #0\nattributes #0 = { preallocated(%missing) }\n",
